@@ -71,6 +71,8 @@ MENU = [
     ("attr-none", "N = None\nclass HasNone:\n    cn = None\n    def hm(self, p=None): ...\n"),
     ("doc-shapes", 'def ds1():\n    """\n    Title\n        indented\n    """\ndef ds2():\n    """Title\n\n        code\n    text\n    """\nclass DS3:\n    """\n        Deep\n            deeper\n    """\n'),
     ("class-attr-annotated", "class Ann:\n    a: int = 1\n    b: str = 'x'\n"),
+    # plain subclasses of a class that has a subscripted base (CPython keeps __orig_bases__ on the generic class and its subclasses INHERIT the attribute)
+    ("inherit-below-generic", "import typing\nTV = typing.TypeVar('TV')\nclass Box(typing.Generic[TV]):\n    def get(self): ...\nclass PlainBox(Box):\n    pass\nclass DeeperBox(PlainBox):\n    pass\n"),
     # annotations that exist only as text: quoted names nothing defines, a name imported under TYPE_CHECKING only (evaluating them fails; the signature does not depend on them)
     ("f-unresolvable-annotations", "import typing\nif typing.TYPE_CHECKING:\n    from decimal import Decimal\ndef fq(a: 'NotDefinedAnywhere', b: 'Decimal' = 1, *, k: 'list[Nope]' = None) -> 'AlsoNot': ...\n"
                                    "class Q:\n    def qm(self, p: 'Decimal') -> 'Q': ...\n    @staticmethod\n    def qs(x: 'Nope'): ...\n"),
@@ -227,11 +229,50 @@ def run_case(griffe, acc, case):
         acc.violation(f"skeleton/{construct}/{field}/{leaf if construct != '?' else 'unknown'}", f"{p}: {field}: static {a!r} vs dynamic {b!r}", cd, None, size=size)
 
 
+# NP: nested packages. Relative imports with one, two and three dots from `__init__` modules and plain modules one, two and three packages deep; the skeleton of
+# EVERY module of the package is compared between the two agents
+NP_FILES = {
+    "np17/__init__.py": "from .core import Root\n",
+    "np17/core.py": "class Root:\n    def r(self): ...\ndef top_fn(a, b=1): ...\n",
+    "np17/plugins/__init__.py": "from ..core import Root as PRoot\nfrom .base import Plugin\n",
+    "np17/plugins/base.py": "from ..core import Root\nfrom .. import core as core_mod\nclass Plugin(Root):\n    def run(self, x): ...\ndef register(p): ...\n",
+    "np17/plugins/builtin/__init__.py": "from ..base import Plugin, register\nfrom .. import base\nfrom ...core import top_fn\nclass Default(Plugin):\n    def run(self, x, y=0): ...\nfrom . import impl\n",
+    "np17/plugins/builtin/impl.py": "from . import Default\nfrom ..base import Plugin as ImplPlugin\nfrom ...core import Root as ImplRoot\nfrom ... import core as impl_core\nclass Impl(Default):\n    pass\n",
+}
+NP_MODS = ["core", "plugins", "plugins.base", "plugins.builtin", "plugins.builtin.impl"]
+
+
+def _run_nested(griffe, acc):
+    cd = {"family": "nested-packages", "files": NP_FILES}
+    with sandbox.scratch_dir("c17n") as d:
+        sandbox.write_tree(d, NP_FILES)
+        trees = {}
+        for agent in ("static", "dynamic"):
+            with sandbox.interpreter_state():
+                try:
+                    loader = griffe.GriffeLoader(search_paths=[d], allow_inspection=(agent == "dynamic"), force_inspection=(agent == "dynamic"))
+                    pkg = loader.load("np17")
+                    loader.resolve_aliases(implicit=True, external=False)
+                    trees[agent] = {"": skeleton(pkg, griffe, agent == "static"), **{m: skeleton(pkg[m], griffe, agent == "static") for m in NP_MODS}}
+                except Exception as e:  # noqa: BLE001
+                    acc.violation(f"raise/{agent}/{type(e).__name__}/nested-packages", f"{agent} load raised {e!r}", cd, None, size=1)
+                    return
+    diffs = []
+    for m in ["", *NP_MODS]:
+        diffs += list(diff(trees["static"][m], trees["dynamic"][m], f"np17.{m}." if m else "np17."))
+    acc.case(cd, outcome="nested:" + ("agree" if not diffs else "differ"), nontrivial=True)
+    acc.observe(sorted(str(x) for x in diffs))
+    for p, field, a, b in diffs:
+        acc.violation(f"skeleton/nested-packages/{field}/{p.rsplit('.', 1)[-1]}", f"{p}: {field}: static {a!r} vs dynamic {b!r}", cd, None, size=1)
+
+
 def run_shard(shard, tier):
     boot.boot()
     import griffe
 
     acc = Acc()
+    if shard == 0:
+        _run_nested(griffe, acc)
     for idx, case in enumerate(all_cases(tier)):
         if idx % NSHARDS != shard:
             continue
@@ -249,6 +290,9 @@ def replay(case):
     import griffe
 
     acc = Acc()
+    if case.get("family") == "nested-packages":
+        _run_nested(griffe, acc)
+        return [(k, v["summary"], v["detail"]) for k, v in acc.violations.items()]
     names = [m[0] for m in MENU]
     combo = tuple(names.index(n) for n in case["constructs"])
     iv = [v[0] for v in INIT_VARIANTS].index(case["init"])
